@@ -375,6 +375,46 @@ def run_hostile(ctx, cases, tag):
     return out
 
 
+def bad_recursive_cases():
+    def fd(name, tag, pt, t):
+        return {"n": name, "gn": name, "exported": True, "pt": pt, "raw": True, "tag": tag, "t": t, "i": 0, "enc": False, "opt": ""}
+    idx = lambda i: {"form": "index", "idx": i, "opt": ""}
+    none = {"form": "none", "idx": 0, "opt": ""}
+    self = {"k": "self"}
+    st = lambda fs: {"k": "struct", "name": "", "f": fs}
+    return [
+        {"ev": "typedef", "gotype": "BadRecS", "u": ["recursive", "slice"],
+         "T": st([fd("Kids", 'plenc:"1"', idx(1), {"k": "slice", "e": self}), fd("C", 'plenc:"2"', idx(2), {"k": "unsup", "g": "complex64"})])},
+        {"ev": "typedef", "gotype": "BadRecP", "u": ["recursive", "ptr"],
+         "T": st([fd("Next", 'plenc:"1"', idx(1), {"k": "ptr", "e": self}), fd("F", 'plenc:"2"', idx(2), {"k": "unsup", "g": "chan"})])},
+        {"ev": "typedef", "gotype": "BadRecM", "u": ["recursive", "mapval"],
+         "T": st([fd("M", 'plenc:"1"', idx(1), {"k": "map", "key": {"k": "string"}, "val": self}), fd("X", "", none, {"k": "int", "w": 64})])},
+    ]
+
+
+def plan_C08(ctx):
+    ctx.build()
+    cases, st = fam_codec.mc_generic(ctx.work, "MCTypes", "  Env <- MCEnv\n  Emit = TRUE\n", "ClassTotal SkippedIgnored AcceptedEncodes DupRejected")
+    ctx.add_mc(st)
+    cases += bad_recursive_cases()
+    log("design check MCTypes: %d states, %d definitions" % (st["distinct"], len(cases)))
+    for c in cases:
+        c["cfg"] = fam_codec.CFGS["default"]
+    p1 = os.path.join(ctx.work, "mc_cases.ndjson")
+    fam_codec.write_cases(cases, p1, 0)
+    ctx.case_files = [p1]
+    trace = fam_codec.run_cases(ctx.pvh, p1, ctx.work, "mc")
+    verdicts, jst = vlib.judge(ctx.work, "TraceTypes", trace, ctx.env, ctx.open, tag="main")
+    rule = ("every definition of MCTypes' universe: field kind (9 supported kinds + complex64/128, array, chan, func, interface, uintptr, unsafe.Pointer) x "
+            "position (field, pointer target, slice element, map key, map value, nested struct field, slice of slices, map of maps, pointer to map, slice of "
+            "maps, slice of pointers, pointer to pointer, top level) x 19 tag strings (well-formed and malformed) x exported / unexported, two-field "
+            "definitions sharing an index, and recursive definitions that must be rejected; a returned codec is used on the zero value and on a populated "
+            "value, decoding into a pre-populated target; after a rejection the types possibly published on the way are requested again and used. "
+            "distinct = distinct definitions; non-trivial = not the empty struct")
+    return finish(ctx, "TraceTypes", verdicts, [trace], jst, rule, CODEC_ASSUME + [
+        "the abstract reading of each tag string (index / dash / none / bad) is part of the specification's table and follows strconv.Atoi"])
+
+
 def plan_C06(ctx):
     return system_family(ctx)
 
@@ -424,9 +464,10 @@ def plan_C12(ctx):
     return codec_family(ctx, 6000, 200000, mc_cfgs_quick=("both", "pa"), rnd_cfg="mix")
 
 
-PLANS = {"C04": plan_C04, "C06": plan_C06, "C11": plan_C11, "C03": plan_C03, "C10": plan_C10, "C18": plan_C18, "C12": plan_C12, "C01": plan_C01, "C02": plan_C02, "C05": plan_C05, "C09": plan_C09, "C14": plan_C14}
+PLANS = {"C08": plan_C08, "C04": plan_C04, "C06": plan_C06, "C11": plan_C11, "C03": plan_C03, "C10": plan_C10, "C18": plan_C18, "C12": plan_C12, "C01": plan_C01, "C02": plan_C02, "C05": plan_C05, "C09": plan_C09, "C14": plan_C14}
 MODULES = {k: "TraceCodec" for k in PLANS}
 MODULES["C18"] = "TracePrim"
 MODULES["C03"] = MODULES["C10"] = "TraceDecode"
 MODULES["C06"] = MODULES["C11"] = "TraceSystem"
 MODULES["C04"] = "TraceHostile"
+MODULES["C08"] = "TraceTypes"
